@@ -1,7 +1,7 @@
 (* C08, part "html": FormatterToHTML as coded (HtmlDefs.v: indent off) against a reader written from HTML 4.01.
    Facts regenerated from /repo: GenHtml.v (entity table, character maps, constants), GenOutopt.v (element table). *)
 From Coq Require Import NArith List Bool.
-Require Import XV.GenOutopt XV.GenHtml XV.HtmlEnt4Defs XV.HtmlDefs XV.HtmlTableModel XV.HtmlSerModel XV.HtmlRefModel XV.HtmlTextModel XV.HtmlAttrModel XV.HtmlElemModel XV.HtmlUriModel XV.HtmlTagModel XV.HtmlTreeModel.
+Require Import XV.GenOutopt XV.GenHtml XV.HtmlEnt4Defs XV.HtmlDefs XV.HtmlTableModel XV.HtmlSerModel XV.HtmlRefModel XV.HtmlTextModel XV.HtmlAttrModel XV.HtmlElemModel XV.HtmlUriModel XV.HtmlTagModel XV.HtmlTreeModel XV.HtmlNsDefs XV.HtmlNsModel.
 Import ListNotations.
 Open Scope N_scope.
 
@@ -199,3 +199,57 @@ Theorem html_roundtrip_refuted :
   html_ok c doc = false /\
   match serialize_html c doc with Some o => parse_html o <> Some (map (norm c) doc) | None => True end.
 Proof. split; [vm_compute; reflexivity|]. vm_compute. discriminate. Qed.
+
+(* ---- the shared scratch string m_stringBuffer and the namespace bookkeeping (HtmlNsDefs.v: ser_node_b) ----------------
+   doPushHasNamespace puts the prefix of the element name into the string and clears it before returning
+   (GenHtml.push_has_namespace_clears_buffer, anchored on the source text); writeNumberedEntityReference and accumHexNumber
+   append the number to it, write it and clear it. *)
+(* started empty, the string is empty again after every node: text, comment, PI, element with all its descendants, whether
+   the element is in a namespace (written by FormatterToXML's code) or not, with or without a prefix resolver, in every context *)
+Theorem scratch_buffer_empty_between_events : forall n res c top ins raw op ns o op' b',
+  ser_node_b push_has_namespace_clears_buffer res c top ins raw op ns [] n = Some (o, op', b') -> b' = [].
+Proof. exact scratch_empty_after_every_node. Qed.
+Print Assumptions scratch_buffer_empty_between_events.
+
+Theorem scratch_buffer_empty_after_document : forall res c doc o b,
+  serialize_html_b push_has_namespace_clears_buffer res c doc = Some (o, b) -> b = [].
+Proof. exact scratch_empty_after_document. Qed.
+Print Assumptions scratch_buffer_empty_after_document.
+
+(* hence references and %HH escapes are exactly the number: without namespace declarations in the tree, the model with the
+   string writes what the string-free model of the theorems above writes (with or without a prefix resolver) *)
+Theorem references_are_exactly_the_number : forall res c doc, forallb no_decls doc = true ->
+  serialize_html_b push_has_namespace_clears_buffer res c doc = lift (serialize_html c doc).
+Proof. exact serialize_b_is_serialize. Qed.
+Print Assumptions references_are_exactly_the_number.
+
+Theorem html_roundtrip_as_coded : forall res c doc, html_ok c doc = true -> forallb no_decls doc = true ->
+  exists o, serialize_html_b push_has_namespace_clears_buffer res c doc = Some (o, []) /\ parse_html o = Some (map (norm c) doc).
+Proof.
+  intros res c doc H N. destruct (html_roundtrip c doc H) as (o & S & P). exists o. split; [|exact P].
+  rewrite (references_are_exactly_the_number res c doc N), S. reflexivity.
+Qed.
+Print Assumptions html_roundtrip_as_coded.
+
+(* what the invariant rests on: without the clear() at the end of doPushHasNamespace (seeded change C08_d) the prefix of
+   <svg:svg> stays in the string and is written in front of the next number: &#svg9731; *)
+Theorem scratch_buffer_without_clear_witness :
+  let c := mkcfg 127 true true [] [] [] in
+  let doc := [HEl [104;116;109;108] [([120;109;108;110;115;58;115;118;103], [117])] [HEl [115;118;103;58;115;118;103] [] []; HEl [112] [] [HText [9731]]]] in
+  serialize_html_b false true c doc =
+    Some ([60;104;116;109;108;32;120;109;108;110;115;58;115;118;103;61;34;117;34;62] ++ [60;115;118;103;58;115;118;103;47;62] ++
+          [60;112;62] ++ [38;35;115;118;103;57;55;51;49;59] ++ [60;47;112;62;60;47;104;116;109;108;62], []) /\
+  serialize_html_b true true c doc =
+    Some ([60;104;116;109;108;32;120;109;108;110;115;58;115;118;103;61;34;117;34;62] ++ [60;115;118;103;58;115;118;103;47;62] ++
+          [60;112;62] ++ [38;35;57;55;51;49;59] ++ [60;47;112;62;60;47;104;116;109;108;62], []).
+Proof. split; vm_compute; reflexivity. Qed.
+
+(* an element whose prefix is bound is written by FormatterToXML's code ("/>" when empty), an unbound prefix leaves it to
+   the HTML code (explicit end tag); without a prefix resolver nothing is looked up *)
+Example namespaced_element_instance :
+  let c := mkcfg 65535 true true [] [] [] in
+  let e := [HEl [115;58;101] [([120;109;108;110;115;58;115], [117])] []] in
+  serialize_html_b true true c e = Some ([60;115;58;101;32;120;109;108;110;115;58;115;61;34;117;34;47;62], []) /\
+  serialize_html_b true false c e = Some ([60;115;58;101;32;120;109;108;110;115;58;115;61;34;117;34;62;60;47;115;58;101;62], []) /\
+  serialize_html_b true true c [HEl [120;58;121] [] []] = Some ([60;120;58;121;62;60;47;120;58;121;62], []).
+Proof. repeat split; vm_compute; reflexivity. Qed.
